@@ -67,7 +67,11 @@ func stripNullsDeep(v any) any {
 }
 
 func C04(r *Run) {
+	if !r.Thorough() {
+		FilesShardFraction = 3 // a third of the 1575 (chain, assignment) layouts per quick run
+	}
 	st := modelFiles(r, "C04")
+	FilesShardFraction = 1
 	r.Logf("model: %d (chain, format assignment) layouts replayed", st.Replayed)
 	g := gen.New(r.Seed*715225739 + 4)
 	g.NullP, g.ReqP = 0, 0
